@@ -266,6 +266,10 @@ let run_case (toks : string list) : string =
     (match M.parse_args M.switches M.setters argv { M.p_opts = M.default_options; M.p_pos = M.O } with
      | M.Throw _ -> "THROW"
      | M.Ok p -> "OPTS " ^ enc_options (M.apply_defaults (bool_of px) (if q = "none" then None else Some (unhex q)) p.M.p_opts))
+  | ["CPPEVAL"; sym; d; ls] ->
+    (match M.cpp_eval (unhex sym) (bool_of d) (lines_of ls) with
+     | None -> "NONE"
+     | Some ls -> "LINES " ^ (if ls = [] then "-" else String.concat "," (List.map (fun l -> hex l.M.txt ^ ":" ^ String.make 1 (char_of_nl l.M.nl)) ls)))
   | ["NORMWS"; a] -> "BYTES " ^ hex (M.norm_ws (unhex a))
   | ["WSMATCH"; a; b] -> b01 (M.matches_ignoring_whitespace (unhex a) (unhex b))
   | ["MATCH"; ws; a; b] -> b01 (M.matches (line_of a) (line_of b) (bool_of ws))
